@@ -355,6 +355,13 @@ def gen_mul(rng, cv, sysname, count, part=None):
         out.append(("edl %d %s" % (len(lot), " ".join(toks))).strip())
         if len(lot) > 0:
             out.append("edla %d %d %s" % (rng.below(len(lot)), len(lot), " ".join(toks)))
+    # the precomputation tables themselves (edtab): a change that is compensated between table construction and loop, or that touches only
+    # t[0] / t[2^depth], is invisible in k*P
+    if mine(0) or mine(1):
+        for v in ("basic", "combs", "combd", "lwnaf"):
+            for P in (cv.g, rng.choice(pool)):
+                out.append("edtab %s %s" % (v, ptok(rng, cv, P, "")))
+        out.append("edtab combd %s" % ptok(rng, cv, cv.O, ""))
     for _ in range(count):
         k = rng.below(100)
         if k < 55:
